@@ -264,8 +264,8 @@ def Good (inp : Input) (n k : Nat) : PSt → Prop
   | .replay ammos a => a = k ∧ ammos = List.range n ∧ (inp.kind.isHttp = true ∨ isScenario inp.kind = true)
   | .grpc s => inp.kind = .grpcJson ∧ s.ammoNum = k ∧ s.pos ≤ n ∧ 1 ≤ s.passNum ∧ k = (s.passNum - 1) * n + s.pos ∧
       (inp.b.passes = 0 ∨ s.passNum ≤ inp.b.passes)
-  | .gen a r => inp.kind = .genericJson ∧ a = k ∧ r.pos ≤ n ∧ k = r.passesCount * n + r.pos ∧
-      (inp.b.passes = 0 ∨ r.passesCount < inp.b.passes)
+  | .gen a r ps => inp.kind = .genericJson ∧ a = k ∧ r.pos ≤ n ∧ k = r.passesCount * n + r.pos ∧
+      (inp.b.passes = 0 ∨ r.passesCount < inp.b.passes) ∧ ps = r.passesCount * n
 
 /-- sendless iterations that may follow before the next offer / return -/
 def tauBudget (n : Nat) : PSt → Nat
@@ -521,31 +521,33 @@ theorem good_step_grpc (inp : Input) (n : Nat) (hn : 0 < n) (c : Bool) (k : Nat)
             · simp; omega
             · simp [tauBudget, hn, hposn]
 
-theorem good_step_gen (inp : Input) (n : Nat) (hn : 0 < n) (c : Bool) (k : Nat) (a : Nat) (r : Mpr)
-    (hg : Good inp n k (.gen a r)) (hb : Below inp.b n k) : StepOk inp n c k (.gen a r) := by
-  obtain ⟨hkind, rfl, hpos, hkq, hq⟩ := hg
-  -- the three possible results of decodeNext from this reader state
-  have hdec : (r.pos < n ∧ decodeNext inp.b.passes n 2 r = (.entry r.pos, { r with pos := r.pos + 1 })) ∨
+theorem good_step_gen (inp : Input) (n : Nat) (hn : 0 < n) (c : Bool) (k : Nat) (a : Nat) (r : Mpr) (ps : Nat)
+    (hg : Good inp n k (.gen a r ps)) (hb : Below inp.b n k) : StepOk inp n c k (.gen a r ps) := by
+  obtain ⟨hkind, rfl, hpos, hkq, hq, hps⟩ := hg
+  have hn0 : n ≠ 0 := by omega
+  -- the three possible results of decodeNextNow from this reader state
+  have hdec : (r.pos < n ∧ decodeNextNow inp.b.passes n a 2 r ps = (.entry r.pos, { r with pos := r.pos + 1 }, ps)) ∨
       (r.pos = n ∧ (inp.b.passes = 0 ∨ r.passesCount + 1 < inp.b.passes) ∧
-        decodeNext inp.b.passes n 2 r = (.entry 0, { pos := 1, passesCount := r.passesCount + 1 })) ∨
+        decodeNextNow inp.b.passes n a 2 r ps = (.entry 0, { pos := 1, passesCount := r.passesCount + 1 }, a)) ∨
       (r.pos = n ∧ inp.b.passes ≠ 0 ∧ inp.b.passes = r.passesCount + 1 ∧
-        ∃ r', decodeNext inp.b.passes n 2 r = (.eof, r')) := by
+        ∃ r' ps', decodeNextNow inp.b.passes n a 2 r ps = (.eof, r', ps')) := by
     by_cases hlt : r.pos < n
-    · left; exact ⟨hlt, by simp [decodeNext, hlt]⟩
+    · left; exact ⟨hlt, by simp [decodeNextNow, hlt]⟩
     · have hpn : r.pos = n := by omega
+      have hprog : a > ps := by rw [hkq, hps, hpn]; omega
       right
       by_cases hw : inp.b.passes = 0 ∨ r.passesCount + 1 < inp.b.passes
       · left
         refine ⟨hpn, hw, ?_⟩
         have h1 : inp.b.passes ≠ 1 := by omega
-        simp [decodeNext, hlt, h1, hw, hn]
+        simp [decodeNextNow, hlt, h1, hw, hn, hn0, hprog]
       · right
         have hp0 : inp.b.passes ≠ 0 := by omega
         have hpe : inp.b.passes = r.passesCount + 1 := by omega
         refine ⟨hpn, hp0, hpe, ?_⟩
         by_cases h1 : inp.b.passes = 1
-        · exact ⟨r, by simp [decodeNext, hlt, h1]⟩
-        · exact ⟨{ r with passesCount := r.passesCount + 1 }, by simp [decodeNext, hlt, h1, hw]⟩
+        · exact ⟨r, ps, by simp [decodeNextNow, hlt, h1]⟩
+        · exact ⟨{ r with passesCount := r.passesCount + 1 }, a, by simp [decodeNextNow, hlt, h1, hw, hn0, hprog]⟩
   refine ⟨?_, ?_, ?_⟩
   · intro res h
     simp only [stepOf, liftAct_ret, genStep] at h
@@ -554,7 +556,7 @@ theorem good_step_gen (inp : Input) (n : Nat) (hn : 0 < n) (c : Bool) (k : Nat) 
       cases h
       refine Or.inl ⟨rfl, hb, Or.inl ⟨by omega, ?_⟩⟩
       rcases hb.1 with h0 | h0 <;> omega
-    · rcases hdec with ⟨_, hd⟩ | ⟨_, _, hd⟩ | ⟨hpn, hp0, hpe, r', hd⟩
+    · rcases hdec with ⟨_, hd⟩ | ⟨_, _, hd⟩ | ⟨hpn, hp0, hpe, r', ps', hd⟩
       · rw [hd] at h; cases h
       · rw [hd] at h; cases h
       · rw [hd] at h
@@ -568,23 +570,24 @@ theorem good_step_gen (inp : Input) (n : Nat) (hn : 0 < n) (c : Bool) (k : Nat) 
     · cases h
     · rename_i hl
       have hls : inp.b.limit = 0 ∨ a < inp.b.limit := by omega
-      rcases hdec with ⟨hlt, hd⟩ | ⟨hpn, hw, hd⟩ | ⟨_, _, _, r', hd⟩
+      rcases hdec with ⟨hlt, hd⟩ | ⟨hpn, hw, hd⟩ | ⟨_, _, _, r', ps', hd⟩
       · rw [hd] at h
         simp only [Act.offer.injEq] at h
         obtain ⟨rfl, rfl⟩ := h
-        refine ⟨by rw [hkq, mod_of_qr _ n _ hlt], ⟨hls, ?_⟩, hkind, rfl, by simp; omega, by simp; omega, by simpa using hq⟩
+        refine ⟨by rw [hkq, mod_of_qr _ n _ hlt], ⟨hls, ?_⟩, hkind, rfl, by simp; omega, by simp; omega, by simpa using hq, by simpa using hps⟩
         rcases hq with h0 | h0
         · exact Or.inl h0
         · right; have := mul_succ_le (n := n) (show r.passesCount + 1 ≤ inp.b.passes by omega); omega
       · rw [hd] at h
         simp only [Act.offer.injEq] at h
         obtain ⟨rfl, rfl⟩ := h
-        refine ⟨by rw [hkq, hpn, mod_of_qn], ⟨hls, ?_⟩, hkind, rfl, by simp; omega, ?_, by simp; omega⟩
+        refine ⟨by rw [hkq, hpn, mod_of_qn], ⟨hls, ?_⟩, hkind, rfl, by simp; omega, ?_, by simp; omega, ?_⟩
         · rcases hw with h0 | h0
           · exact Or.inl h0
           · right
             have := mul_succ_le (n := n) (show r.passesCount + 1 + 1 ≤ inp.b.passes by omega)
             rw [Nat.succ_mul] at this; omega
+        · simp; rw [hkq, hpn, Nat.succ_mul]
         · simp; rw [hkq, hpn, Nat.succ_mul]
       · rw [hd] at h; cases h
   · intro s' h
@@ -592,7 +595,7 @@ theorem good_step_gen (inp : Input) (n : Nat) (hn : 0 < n) (c : Bool) (k : Nat) 
     obtain ⟨p, h, _⟩ := h
     split at h
     · cases h
-    · rcases hdec with ⟨_, hd⟩ | ⟨_, _, hd⟩ | ⟨_, _, _, r', hd⟩ <;> rw [hd] at h <;> cases h
+    · rcases hdec with ⟨_, hd⟩ | ⟨_, _, hd⟩ | ⟨_, _, _, r', ps', hd⟩ <;> rw [hd] at h <;> cases h
 
 theorem good_step (inp : Input) (n : Nat) (hn : 0 < n) (c : Bool) (k : Nat) (s : PSt)
     (hg : Good inp n k s) (hb : Below inp.b n k) : StepOk inp n c k s := by
@@ -602,7 +605,7 @@ theorem good_step (inp : Input) (n : Nat) (hn : 0 < n) (c : Bool) (k : Nat) (s :
   | unloaded => exact good_step_unloaded inp n hn c k hg
   | replay ammos a => exact good_step_replay inp n hn c k ammos a hg hb
   | grpc g => exact good_step_grpc inp n hn c k g hg hb
-  | gen a r => exact good_step_gen inp n hn c k a r hg hb
+  | gen a r ps => exact good_step_gen inp n hn c k a r ps hg hb
 
 theorem tauBudget_le_one (n : Nat) (s : PSt) : tauBudget n s ≤ 1 := by
   cases s <;> simp [tauBudget]
